@@ -5,6 +5,7 @@ GInit == Init /\ hist = <<>>
 GNext ==
   \/ \E n \in 1..MaxChunk : Deliver(n) /\ hist' = Append(hist, [a |-> "Deliver", n |-> n])
   \/ \E n \in 1..MaxChunk, k \in 1..MaxApp : DeliverNested(n, k) /\ hist' = Append(hist, [a |-> "DeliverNested", n |-> n, k |-> k])
+  \/ \E n \in 1..MaxApp, k \in 1..MaxApp : DeliverReentrant(n, k) /\ hist' = Append(hist, [a |-> "DeliverReentrant", n |-> n, k |-> k])
   \/ Disconnect /\ hist' = Append(hist, [a |-> "Disconnect"])
   \/ AppWrite /\ appW < 2 /\ hist' = Append(hist, [a |-> "AppWrite"])
 GSpec == GInit /\ [][GNext]_<<vars, hist>>
